@@ -184,6 +184,8 @@ def canon_content(s):
         i = m.group(1).lstrip("0") or "0"
         f = m.group(2).rstrip("0")
         return i + "," + f
+    if re.fullmatch(r"\d{1,5}(/\d{1,5})?", s):          # statement / sequence / index numbers: leading zeros are spelling
+        return "/".join(str(int(x)) for x in s.split("/"))
     return NUM_RE.sub(num, s)
 
 
